@@ -558,15 +558,17 @@ Qed.
 Lemma accept_value_nonempty a key v : accept_value a key = Some v -> key <> [].
 Proof. intros H ->. unfold accept_value, accept_from, value_at in H. cbn in H. discriminate. Qed.
 
-Section Cert.
-Variables (L : lexicon) (rows : list row) (fuel : nat).
-Hypothesis Hcert : cert_lex L rows fuel = true.
-
-Lemma cert_parts : exists ks, keys_of (lx_trie L) fuel = Some ks /\
+(* what the per-dictionary certificate says, as a proposition: the keys the array accepts are the indexed surfaces of the CSV and
+   every key's table group lists exactly the rows carrying that surface, in row order *)
+Definition cert_prop (L : lexicon) (rows : list row) (fuel : nat) : Prop :=
+  exists ks, keys_of (lx_trie L) fuel = Some ks /\
   (forall k v, In (k, v) ks -> rows_with k rows <> [] /\ entries (lx_table L) v = Some (rows_with k rows)
                                /\ Forall (fun r => N.land r WORD_MASK = r) (rows_with k rows)) /\
   (forall r, In r rows -> indexed r = true -> exists v, In (fst r, v) ks).
+
+Lemma cert_parts (L : lexicon) (rows : list row) (fuel : nat) : cert_lex L rows fuel = true -> cert_prop L rows fuel.
 Proof.
+  intros Hcert. unfold cert_prop.
   unfold cert_lex in Hcert. destruct (keys_of (lx_trie L) fuel) as [ks|]; [|discriminate].
   apply andb_true_iff in Hcert. destruct Hcert as [H1 H2]. exists ks. split; [reflexivity|]. split.
   - intros k v Hin. rewrite forallb_forall in H1. specialize (H1 (k, v) Hin). cbn [fst snd] in H1.
@@ -580,14 +582,18 @@ Proof.
     exists v. exact Hk.
 Qed.
 
+Section Cert.
+Variables (L : lexicon) (rows : list row) (fuel : nat).
+Hypothesis Hcp : cert_prop L rows fuel.
+
 (* certified dictionary: for EVERY byte text and offset, Lexicon::lookup succeeds and returns exactly the rows of the CSV
    that are indexed and whose surface is a prefix of the text at that offset, with the right end and word number *)
-Lemma lex_lookup_exact_of_cert : forall dic text off,
+Lemma lex_lookup_exact_of_cert_prop : forall dic text off,
   N.land dic LF.DIC_MASK = dic -> bytes text ->
   exists l, lex_lookup L dic text off = Some l /\
             forall w e, In (w, e) l <-> In (w, e) (naive_lex dic rows text off).
 Proof.
-  intros dic text off Hd Hb. destruct cert_parts as [ks [Hk [Hks Hrows]]].
+  intros dic text off Hd Hb. destruct Hcp as [ks [Hk [Hks Hrows]]].
   assert (Hbs : forall key, is_prefix key (skipn off text) -> bytes key).
   { intros key [suffix Hs]. assert (Hb2 : bytes (skipn off text)).
     { unfold bytes in *. rewrite Forall_forall in *. intros x Hx. apply Hb.
@@ -613,6 +619,13 @@ Proof.
     split; [exact He|]. split; [|reflexivity]. apply rows_with_in. exists rw. repeat split; assumption.
 Qed.
 End Cert.
+
+Lemma lex_lookup_exact_of_cert (L : lexicon) (rows : list row) (fuel : nat) :
+  cert_lex L rows fuel = true ->
+  forall dic text off, N.land dic LF.DIC_MASK = dic -> bytes text ->
+  exists l, lex_lookup L dic text off = Some l /\
+            forall w e, In (w, e) l <-> In (w, e) (naive_lex dic rows text off).
+Proof. intros H. exact (lex_lookup_exact_of_cert_prop L rows fuel (cert_parts L rows fuel H)). Qed.
 
 (* exact-surface lookup: the ids of lookup(q, 0) whose end is the end of the query *)
 Lemma exact_lookup_spec lexs q ids :
@@ -680,11 +693,11 @@ Proof.
 Qed.
 
 (* certified dictionary: Lexicon::lookup reports no entry twice, for every byte text and offset *)
-Lemma lex_lookup_nodup_of_cert L rows fuel :
-  layout_ok = true -> cert_lex L rows fuel = true ->
+Lemma lex_lookup_nodup_of_cert_prop L rows fuel :
+  layout_ok = true -> cert_prop L rows fuel ->
   forall dic text off l, dic < 16 -> bytes text -> lex_lookup L dic text off = Some l -> NoDup l.
 Proof.
-  intros HL Hcert dic text off l Hd Hb Hl. destruct (cert_parts L rows fuel Hcert) as [ks [Hk [Hks _]]].
+  intros HL Hcert dic text off l Hd Hb Hl. destruct Hcert as [ks [Hk [Hks _]]].
   unfold lex_lookup in Hl.
   apply (expand_nodup _ dic HL Hd _ l (N.of_nat off) Hl (traverse_ends_increase _ text off)).
   intros v e ids Hin Hent. apply traverse_in in Hin. destruct Hin as [key [Hne [Ha [Hp _]]]].
@@ -700,3 +713,8 @@ Proof.
   rewrite Forall_forall in *. intros r Hr. specialize (Hf r Hr). rewrite <- Hf. rewrite E4, N.land_ones, N.ones_equiv.
   pose proof (N.mod_upper_bound r (2 ^ 28)). change (2 ^ 28) with 268435456 in *. lia.
 Qed.
+
+Lemma lex_lookup_nodup_of_cert L rows fuel :
+  layout_ok = true -> cert_lex L rows fuel = true ->
+  forall dic text off l, dic < 16 -> bytes text -> lex_lookup L dic text off = Some l -> NoDup l.
+Proof. intros HL H. exact (lex_lookup_nodup_of_cert_prop L rows fuel HL (cert_parts L rows fuel H)). Qed.
